@@ -1285,16 +1285,10 @@ end XR
 
 /-! ## `Rex`: the same, away from the `0/0` the exact-real carrier cannot represent -/
 
-theorem Unpaired.ciMean_isPanic_Rex (crit : Crit Rex) (u : Unpaired Rex) (conf : Confidence Rex)
-    (hq : probOk conf.quantile = true)
+/-- at exact reals the effective degrees of freedom are positive unless both samples are constant -/
+theorem Unpaired.dofF_pos_Rex (u : Unpaired Rex) (h1 : 2 ≤ u.a.count) (h2 : 2 ≤ u.b.count)
     (hpos : (Unpaired.s2n u.a).val ≠ 0 ∨ (Unpaired.s2n u.b).val ≠ 0) :
-    (Unpaired.ciMean crit u conf).isPanic = false := by
-  rw [Bool.eq_false_iff]
-  intro hp
-  obtain ⟨h1, h2, _, _, h5⟩ := (Unpaired.ciMean_isPanic_iff crit u conf).mp hp
-  rcases h5 with ⟨_, h6⟩ | h5
-  swap
-  · simp [hq] at h5
+    0 < (Unpaired.dofF u).val := by
   have hna : (2 : ℝ) ≤ u.a.count := by exact_mod_cast h1
   have hnb : (2 : ℝ) ≤ u.b.count := by exact_mod_cast h2
   have hα : 0 ≤ (Unpaired.s2n u.a).val := by
@@ -1321,16 +1315,362 @@ theorem Unpaired.ciMean_isPanic_Rex (crit : Crit Rex) (u : Unpaired Rex) (conf :
       · exact hp (mul_self_eq_zero.mp z)
       · linarith
   have := welch_dof_pos _ _ _ _ hα hβ hna hnb hD
-  have hval : (Widen.up (Unpaired.dofF u) : Rex).val =
+  have hval : (Unpaired.dofF u).val =
       ((Unpaired.s2n u.a).val + (Unpaired.s2n u.b).val) * ((Unpaired.s2n u.a).val + (Unpaired.s2n u.b).val) /
         ((Unpaired.s2n u.a).val * (Unpaired.s2n u.a).val / ((u.a.count : ℝ) + 1) +
           (Unpaired.s2n u.b).val * (Unpaired.s2n u.b).val / ((u.b.count : ℝ) + 1)) - 1 - 1 := by
     simp [Unpaired.dofF, Unpaired.effectiveDof]
-  have h6' : ¬ (0 : ℝ) < (Widen.up (Unpaired.dofF u) : Rex).val := by
-    intro hh
+  rw [hval]; exact this
+
+theorem Unpaired.ciMean_isPanic_Rex (crit : Crit Rex) (u : Unpaired Rex) (conf : Confidence Rex)
+    (hq : probOk conf.quantile = true)
+    (hpos : (Unpaired.s2n u.a).val ≠ 0 ∨ (Unpaired.s2n u.b).val ≠ 0) :
+    (Unpaired.ciMean crit u conf).isPanic = false := by
+  rw [Bool.eq_false_iff]
+  intro hp
+  obtain ⟨h1, h2, _, _, h5⟩ := (Unpaired.ciMean_isPanic_iff crit u conf).mp hp
+  rcases h5 with ⟨_, h6⟩ | h5
+  · have hh := Unpaired.dofF_pos_Rex u h1 h2 hpos
     have : gt (Widen.up (Unpaired.dofF u) : Rex) (NumOps.zero : Rex) = true := by simpa using hh
     rw [this] at h6; cases h6
-  rw [hval] at h6'
-  exact h6' this
+  · simp [hq] at h5
+
+/-! ## `Ok` implies the closed form (no law class: the hypotheses are read off the `Ok`) -/
+
+theorem Arith.ciMean_eq_of_ok {F W : Type} [Scalar F] [Scalar W] [Widen F W] {crit : Crit W}
+    {a : Arith F} {conf : Confidence W} {i : Interval F} (h : Arith.ciMean crit a conf = .ok i) :
+    probOk conf.quantile = true ∧
+    intervalOfKind conf
+        (Widen.down (sub (Widen.up a.mean : W)
+          (mul (Arith.critOf crit a conf) (div (Widen.up a.stdDev) (sqrt (Scalar.ofNat a.count))))) : F)
+        (Widen.down (add (Widen.up a.mean : W)
+          (mul (Arith.critOf crit a conf) (div (Widen.up a.stdDev) (sqrt (Scalar.ofNat a.count))))) : F)
+      = (.ok i : Outcome (Err W) (Interval F)) := by
+  obtain ⟨h2, hm, hs, _⟩ := Arith.ciMean_eq_ok h
+  have hnp : (Arith.ciMean crit a conf).isPanic = false := by rw [h]; rfl
+  have hiff := Arith.ciMean_isPanic_iff crit a conf
+  have hq : probOk conf.quantile = true := by
+    by_contra hq
+    have := hiff.mpr ⟨h2, hm, hs, Or.inr (by simpa using hq)⟩
+    rw [hnp] at this; cases this
+  have hd : lt (sub (Scalar.ofNat a.count) one : W) (populationLimit : W) = true →
+      gt (sub (Scalar.ofNat a.count) one : W) (zero : W) = true := by
+    intro hl
+    by_contra hg
+    have := hiff.mpr ⟨h2, hm, hs, Or.inl ⟨hl, by simpa using hg⟩⟩
+    rw [hnp] at this; cases this
+  refine ⟨hq, ?_⟩
+  rw [← h]
+  unfold Arith.ciMean
+  rw [Arith.ciPrep_of_finite a h2 hm hs]
+  simp only [Outcome.bind_ok]
+  rw [intervalBounds_eq crit conf _ _ _ hq hd]
+  rfl
+
+theorem Unpaired.ciMean_eq_of_ok {F W : Type} [Scalar F] [Scalar W] [Widen F W] {crit : Crit W}
+    {u : Unpaired F} {conf : Confidence W} {i : Interval F} (h : Unpaired.ciMean crit u conf = .ok i) :
+    probOk conf.quantile = true ∧
+    intervalOfKind conf
+        (Widen.down (sub (Widen.up (Unpaired.meanDiff u) : W)
+          (mul (Unpaired.critOf crit u conf) (Widen.up (Unpaired.semF u)))) : F)
+        (Widen.down (add (Widen.up (Unpaired.meanDiff u) : W)
+          (mul (Unpaired.critOf crit u conf) (Widen.up (Unpaired.semF u)))) : F)
+      = (.ok i : Outcome (Err W) (Interval F)) := by
+  obtain ⟨h1, h2, h3, h4, _⟩ := Unpaired.ciMean_eq_ok h
+  have hnp : (Unpaired.ciMean crit u conf).isPanic = false := by rw [h]; rfl
+  have hiff := Unpaired.ciMean_isPanic_iff crit u conf
+  have hq : probOk conf.quantile = true := by
+    by_contra hq
+    have := hiff.mpr ⟨h1, h2, h3, h4, Or.inr (by simpa using hq)⟩
+    rw [hnp] at this; cases this
+  have hd : lt (Widen.up (Unpaired.dofF u) : W) (populationLimit : W) = true →
+      gt (Widen.up (Unpaired.dofF u) : W) (zero : W) = true := by
+    intro hl
+    by_contra hg
+    have := hiff.mpr ⟨h1, h2, h3, h4, Or.inl ⟨hl, by simpa using hg⟩⟩
+    rw [hnp] at this; cases this
+  exact ⟨hq, by rw [← h, Unpaired.ciMean_eq crit u conf h1 h2 h3 h4 hq hd]⟩
+
+/-! ## `XR`: with a finite critical value no `Ok` carries a NaN -/
+
+namespace XR
+
+/-- all bounds finite, and ordered when there are two -/
+def FinIv : Interval XR → Prop
+  | .twoSided lo hi => ∃ a b : ℝ, lo = fin a ∧ hi = fin b ∧ a ≤ b
+  | .upper lo => ∃ a : ℝ, lo = fin a
+  | .lower hi => ∃ b : ℝ, hi = fin b
+
+/-- no bound is a NaN -/
+def NoNaN : Interval XR → Prop
+  | .twoSided lo hi => lo ≠ nan ∧ hi ≠ nan
+  | .upper lo => lo ≠ nan
+  | .lower hi => hi ≠ nan
+
+theorem FinIv.noNaN {i : Interval XR} (h : FinIv i) : NoNaN i := by
+  cases i <;> simp only [FinIv, NoNaN] at *
+  · obtain ⟨a, b, rfl, rfl, _⟩ := h; simp
+  · obtain ⟨a, rfl⟩ := h; simp
+  · obtain ⟨a, rfl⟩ := h; simp
+
+theorem intervalOfKind_fin {conf : Confidence XR} {a b : ℝ} {i : Interval XR}
+    (h : (intervalOfKind conf (fin a) (fin b) : Outcome (Err XR) (Interval XR)) = .ok i) :
+    FinIv i ∧ (conf.kind = .twoSided → i = .twoSided (fin a) (fin b)) ∧
+      (conf.kind = .upper → i = .upper (fin a)) ∧ (conf.kind = .lower → i = .lower (fin b)) := by
+  obtain ⟨h1, h2, h3⟩ := intervalOfKind_eq_ok h
+  refine ⟨?_, fun hk => (h1 hk).1, h2, h3⟩
+  cases conf
+  · obtain ⟨rfl, hg⟩ := h1 rfl
+    exact ⟨a, b, rfl, rfl, by simpa using hg⟩
+  · rw [h2 rfl]; exact ⟨a, rfl⟩
+  · rw [h3 rfl]; exact ⟨b, rfl⟩
+
+theorem arith_ciMean_ok_finIv (crit : Crit XR) (a : Arith XR) (conf : Confidence XR)
+    (hc : ∀ r, Scalar.isFinite (crit r) = true) {i : Interval XR}
+    (h : Arith.ciMean crit a conf = .ok i) :
+    FinIv i ∧ (i.isTwoSided = true ↔ conf.kind = .twoSided) ∧ (i.isUpper = true ↔ conf.kind = .upper) ∧
+      (i.isLower = true ↔ conf.kind = .lower) := by
+  obtain ⟨h2, hm, hs, _⟩ := Arith.ciMean_eq_ok h
+  obtain ⟨_, h⟩ := Arith.ciMean_eq_of_ok h
+  obtain ⟨m, hm'⟩ := (isFinite_iff _).mp hm
+  obtain ⟨s, hs'⟩ := (isFinite_iff _).mp hs
+  obtain ⟨c, hc'⟩ := (isFinite_iff _).mp (hc (critReq conf (NumOps.sub (Scalar.ofNat a.count) NumOps.one)))
+  have hn : (0 : ℝ) < a.count := by exact_mod_cast (show 0 < a.count by omega)
+  have hsq : Real.sqrt (a.count : ℝ) ≠ 0 := (Real.sqrt_pos.mpr hn).ne'
+  simp only [up_eq, down_eq] at hm' hs' h
+  rw [hm', hs', show Arith.critOf crit a conf = fin c from hc'] at h
+  simp only [ofNat_eq, sqrt_fin_of_nonneg hn.le, div_fin_fin_of_ne _ hsq, mul_fin_fin, sub_fin_fin,
+    add_fin_fin] at h
+  obtain ⟨hf, k1, k2, k3⟩ := intervalOfKind_fin h
+  refine ⟨hf, ?_⟩
+  cases conf
+  · rw [k1 rfl]; simp [Interval.isTwoSided, Interval.isUpper, Interval.isLower, Confidence.kind]
+  · rw [k2 rfl]; simp [Interval.isTwoSided, Interval.isUpper, Interval.isLower, Confidence.kind]
+  · rw [k3 rfl]; simp [Interval.isTwoSided, Interval.isUpper, Interval.isLower, Confidence.kind]
+
+theorem unpaired_ciMean_ok_finIv (crit : Crit XR) (u : Unpaired XR) (conf : Confidence XR)
+    (hc : ∀ r, Scalar.isFinite (crit r) = true) {i : Interval XR}
+    (h : Unpaired.ciMean crit u conf = .ok i) : FinIv i := by
+  obtain ⟨_, _, hm, hs, _⟩ := Unpaired.ciMean_eq_ok h
+  obtain ⟨_, h⟩ := Unpaired.ciMean_eq_of_ok h
+  obtain ⟨m, hm'⟩ := (isFinite_iff _).mp hm
+  obtain ⟨s, hs'⟩ := (isFinite_iff _).mp hs
+  obtain ⟨c, hc'⟩ := (isFinite_iff _).mp (hc (critReq conf (Widen.up (Unpaired.dofF u))))
+  simp only [up_eq, down_eq] at h
+  rw [hm', hs', show Unpaired.critOf crit u conf = fin c from hc'] at h
+  simp only [mul_fin_fin, sub_fin_fin, add_fin_fin] at h
+  exact (intervalOfKind_fin h).1
+
+theorem geometric_ciMean_ok_finIv (crit : Crit XR) (g : Geometric XR) (conf : Confidence XR)
+    (hc : ∀ r, Scalar.isFinite (crit r) = true) {i : Interval XR}
+    (h : Geometric.ciMean crit g conf = .ok i) : FinIv i := by
+  unfold Geometric.ciMean at h
+  obtain ⟨j, hj, h⟩ := Outcome.bind_eq_ok h
+  obtain ⟨hf, k1, k2, k3⟩ := arith_ciMean_ok_finIv crit g.logs conf hc hj
+  cases conf <;> cases j <;>
+    simp [Interval.isTwoSided, Interval.isUpper, Interval.isLower, Confidence.kind] at k1 k2 k3
+  · obtain ⟨a, b, rfl, rfl, hab⟩ := hf
+    simp only [Interval.lowX, Interval.highX, exp_fin] at h
+    exact (intervalOfKind_fin h).1
+  · obtain ⟨a, rfl⟩ := hf
+    simp only [intervalOfKind, Interval.lowX, exp_fin, Interval.newUpper, Outcome.ok.injEq] at h
+    rw [← h]; exact ⟨_, rfl⟩
+  · obtain ⟨b, rfl⟩ := hf
+    simp only [intervalOfKind, Interval.highX, exp_fin, Interval.newLower, Outcome.ok.injEq] at h
+    rw [← h]; exact ⟨_, rfl⟩
+
+/-- `1/x` of a finite `x` is never a NaN (it is `+∞` at `x = 0`) -/
+theorem one_div_fin_ne_nan (x : ℝ) : NumOps.div (NumOps.one : XR) (fin x) ≠ nan := by
+  by_cases hx : x = 0
+  · subst hx
+    rw [one_eq, div_zero_of_pos one_pos]; simp
+  · rw [one_eq, div_fin_fin_of_ne _ hx]; simp
+
+theorem harmonic_ciMean_ok_noNaN (crit : Crit XR) (g : Harmonic XR) (conf : Confidence XR)
+    (hc : ∀ r, Scalar.isFinite (crit r) = true) {i : Interval XR}
+    (h : Harmonic.ciMean crit g conf = .ok i) : NoNaN i := by
+  unfold Harmonic.ciMean at h
+  obtain ⟨j, hj, h⟩ := Outcome.bind_eq_ok h
+  obtain ⟨hf, k1, k2, k3⟩ := arith_ciMean_ok_finIv crit g.recip conf.flipped hc hj
+  cases conf <;> cases j <;>
+    simp [Interval.isTwoSided, Interval.isUpper, Interval.isLower, Confidence.kind,
+      Confidence.flipped] at k1 k2 k3
+  · obtain ⟨a, b, rfl, rfl, hab⟩ := hf
+    simp only [Interval.lowX, Interval.highX] at h
+    obtain ⟨rfl, _⟩ := (intervalOfKind_eq_ok h).1 rfl
+    exact ⟨one_div_fin_ne_nan b, one_div_fin_ne_nan a⟩
+  · obtain ⟨b, rfl⟩ := hf
+    simp only [intervalOfKind, Interval.highX, Interval.newUpper, Outcome.ok.injEq] at h
+    rw [← h]; exact one_div_fin_ne_nan b
+  · obtain ⟨a, rfl⟩ := hf
+    simp only [intervalOfKind, Interval.lowX, Interval.newLower, Outcome.ok.injEq] at h
+    rw [← h]; exact one_div_fin_ne_nan a
+
+theorem finish_fin {conf : Confidence XR} {m s : ℝ} {i : Interval XR}
+    (h : Proportion.finish conf (fin m) (fin s) = .ok i) : FinIv i := by
+  obtain ⟨lo, hi, rfl, hg, k1, k2, k3⟩ := Proportion.finish_eq_ok h
+  cases conf
+  · obtain ⟨rfl, rfl⟩ := k1 rfl
+    exact ⟨_, _, rfl, rfl, by simpa using hg⟩
+  · obtain ⟨rfl, rfl⟩ := k2 rfl
+    exact ⟨_, _, rfl, rfl, by simpa using hg⟩
+  · obtain ⟨rfl, rfl⟩ := k3 rfl
+    exact ⟨_, _, rfl, rfl, by simpa using hg⟩
+
+theorem ciWilson_ok_finIv (crit : Crit XR) (conf : Confidence XR) (n k : Nat)
+    (hc : ∀ r, Scalar.isFinite (crit r) = true) {i : Interval XR}
+    (h : Proportion.ciWilson crit conf n k = .ok i) : FinIv i := by
+  obtain ⟨h1, h2, h3, hq, _⟩ := Proportion.ciWilson_eq_ok h
+  rw [Proportion.ciWilson_of_guards crit conf h1 h2 h3, zValue_eq crit conf hq] at h
+  obtain ⟨z, hz⟩ := (isFinite_iff _).mp (hc (.z conf.quantile))
+  have hn : (4 : ℝ) ≤ n := by exact_mod_cast (show 4 ≤ n by omega)
+  have hk : (0 : ℝ) ≤ k := Nat.cast_nonneg _
+  have hkn : (k : ℝ) ≤ n := by exact_mod_cast h1
+  have hd : (n : ℝ) + z * z ≠ 0 := by nlinarith [mul_self_nonneg z]
+  have hn0 : (n : ℝ) ≠ 0 := by linarith
+  have h2' : (1 : ℝ) + 1 ≠ 0 := by norm_num
+  have h4' : (1 : ℝ) + 1 + (1 + 1) ≠ 0 := by norm_num
+  have harg : 0 ≤ (k : ℝ) * (n - k) / n + z * z / (1 + 1 + (1 + 1)) := by
+    have : 0 ≤ (k : ℝ) * (n - k) / n := div_nonneg (mul_nonneg hk (by linarith)) (by linarith)
+    have : 0 ≤ z * z / (1 + 1 + (1 + 1)) := div_nonneg (mul_self_nonneg z) (by norm_num)
+    linarith
+  simp only [Outcome.bind_ok, hz, Proportion.wilsonCentre, Proportion.wilsonSpan, ofNat_eq, one_eq,
+    mul_fin_fin, add_fin_fin, sub_fin_fin, div_fin_fin_of_ne _ h2', div_fin_fin_of_ne _ h4',
+    div_fin_fin_of_ne _ hd, div_fin_fin_of_ne _ hn0, sqrt_fin_of_nonneg harg] at h
+  exact finish_fin h
+
+theorem ciZNormal_ok_finIv (crit : Crit XR) (conf : Confidence XR) (n k : Nat)
+    (hc : ∀ r, Scalar.isFinite (crit r) = true) {i : Interval XR}
+    (h : Proportion.ciZNormal crit conf n k = .ok i) : FinIv i := by
+  obtain ⟨h1, h2, h3, hq, _⟩ := Proportion.ciZNormal_eq_ok h
+  rcases Proportion.ciZNormal_cases crit conf n k with ⟨h', _⟩ | ⟨_, h', _⟩ | ⟨_, _, h', _⟩ | ⟨_, _, _, h'⟩
+  · omega
+  · omega
+  · omega
+  rw [h', zValue_eq crit conf hq] at h
+  obtain ⟨z, hz⟩ := (isFinite_iff _).mp (hc (.z conf.quantile))
+  have hn : (20 : ℝ) ≤ n := by exact_mod_cast (show 20 ≤ n by omega)
+  have hk : (0 : ℝ) ≤ k := Nat.cast_nonneg _
+  have hkn : (k : ℝ) ≤ n := by exact_mod_cast h1
+  have hn0 : (n : ℝ) ≠ 0 := by linarith
+  have hp0 : 0 ≤ (k : ℝ) / n := div_nonneg hk (by linarith)
+  have hp1 : (k : ℝ) / n ≤ 1 := by rw [div_le_one (by linarith)]; exact hkn
+  have harg : 0 ≤ (k : ℝ) / n * (1 - (k : ℝ) / n) / n :=
+    div_nonneg (mul_nonneg hp0 (by linarith)) (by linarith)
+  simp only [Outcome.bind_ok, hz, Proportion.waldP, Proportion.waldQ, Proportion.waldSd, ofNat_eq,
+    one_eq, mul_fin_fin, sub_fin_fin, div_fin_fin_of_ne _ hn0, sqrt_fin_of_nonneg harg] at h
+  exact finish_fin h
+
+theorem ciWilsonRatio_ok_finIv (crit : Crit XR) (conf : Confidence XR) (n : Nat) (rate : XR)
+    (hc : ∀ r, Scalar.isFinite (crit r) = true) {i : Interval XR}
+    (h : Proportion.ciWilsonRatio crit conf n rate = .ok i) : FinIv i := by
+  by_cases hr : Cmp.le rate (NumOps.zero : XR) = true
+  · rw [Proportion.ciWilsonRatio_of_nonpos crit conf n hr] at h; cases h
+  · rw [Proportion.ciWilsonRatio_of_pos crit conf n (by simpa using hr)] at h
+    exact ciWilson_ok_finIv crit conf n _ hc h
+
+/-- `quantile::ci` on `XR` data: the bounds are elements of the data, and the sort has already
+    panicked on any NaN (every `Ok` needs at least four elements) -/
+theorem quantile_ci_ok_noNaN (crit : Crit XR) (conf : Confidence XR) (xs : List XR) (q : XR)
+    {i : Interval XR} (h : Quantile.ci crit conf xs q = .ok i) : NoNaN i := by
+  unfold Quantile.ci at h
+  obtain ⟨sorted, hs, h⟩ := Outcome.bind_eq_ok h
+  obtain ⟨idx, hidx, hpick⟩ := Quantile.ciSortedUnchecked_eq_ok h
+  obtain ⟨_, hn, _⟩ := Quantile.ciIndices_eq_ok hidx
+  obtain ⟨rfl, hlen⟩ := Quantile.sortData_eq_ok hs
+  have hnp : (Quantile.sortData xs : Outcome (Err XR) (List XR)).isPanic = false := by rw [hs]; rfl
+  have hall : ∀ x ∈ xs, x ≠ nan := by
+    intro x hx hnan
+    subst hnan
+    have := (Quantile.sortData_isPanic_iff (W := XR) xs).mpr ⟨by omega, nan, hx, by simp⟩
+    rw [hnp] at this; cases this
+  have hmem : ∀ (j : Nat) (a : XR),
+      (xs.mergeSort (fun a b => Cmp.le a b))[j]? = some a → a ≠ nan := by
+    intro j a hj
+    exact hall a ((List.mergeSort_perm xs _).mem_iff.mp (List.mem_of_getElem? hj))
+  cases idx <;> cases i <;> simp only [Quantile.PickOk] at hpick
+  · exact ⟨hmem _ _ hpick.1, hmem _ _ hpick.2.1⟩
+  · exact hmem _ _ hpick
+  · exact hmem _ _ hpick
+
+end XR
+
+/-! ## concrete witnesses (used for the non-vacuity examples of the property files) -/
+
+namespace Examples
+
+/-- the state reached after observing `1, 2`: sum 3, sum of squares 5, count 2 -/
+def a12 : Arith Rex := ⟨⟨⟨3⟩, ⟨0⟩⟩, ⟨⟨5⟩, ⟨0⟩⟩, 2⟩
+
+theorem a12_reachable : a12 = Arith.fromList [inj 1, inj 2] := by
+  simp only [a12, Arith.fromList, Arith.extend, List.foldl_cons, List.foldl_nil, Arith.append,
+    Arith.empty, Kahan.empty, Kahan.new, Kahan.add, Arith.mk.injEq, Kahan.mk.injEq]
+  refine ⟨⟨?_, ?_⟩, ⟨?_, ?_⟩, rfl⟩ <;> apply RR.ext' <;> simp <;> norm_num
+
+theorem a12_mean : a12.mean.val = 3 / 2 := by
+  simp [a12, Arith.mean, Kahan.value]
+
+theorem a12_variance : a12.variance.val = 1 / 2 := by
+  have h : ¬ ((5 : ℝ) - 3 / 2 * 3 < 0) := by norm_num
+  simp [a12, Arith.variance, Arith.mean, Kahan.value, h]
+  norm_num
+
+theorem a12_stdDev : a12.stdDev.val = Real.sqrt (1 / 2) := by
+  simp only [Arith.stdDev, RR.sqrt_val, id, a12_variance]
+
+theorem a12_stdDev_pos : 0 < a12.stdDev.val := by
+  rw [a12_stdDev]; exact Real.sqrt_pos.mpr (by norm_num)
+
+theorem a12_stdDev_sq : a12.stdDev.val * a12.stdDev.val = 1 / 2 := by
+  rw [a12_stdDev]; exact Real.mul_self_sqrt (by norm_num)
+
+theorem conf95_valid : Confidence.validLevel (Confidence.twoSided (inj 0.95 : Rex)).level = true := by
+  simp [Confidence.validLevel, Confidence.level]; norm_num
+
+theorem conf95_probOk : probOk (Confidence.twoSided (inj 0.95 : Rex)).quantile = true :=
+  Confidence.probOk_of_valid_Rex _ conf95_valid
+
+theorem twoSided_ok_Rex (l lo hi : Rex) (h : lo.val ≤ hi.val) :
+    (intervalOfKind (Confidence.twoSided l) lo hi : Outcome (Err Rex) (Interval Rex)) =
+      .ok (.twoSided lo hi) := by
+  simp [intervalOfKind, Interval.new, liftI, not_lt.mpr h]
+
+/-- `Arithmetic::ci_mean` on `1, 2` with critical value 2 is an `Ok` two-sided interval, with a
+    non-zero standard error -/
+theorem arith_ok : ∃ lo hi : Rex,
+    Arith.ciMean (constCrit 2 : Crit Rex) a12 (.twoSided (inj 0.95)) = .ok (.twoSided lo hi) ∧
+    a12.stdDev.val / Real.sqrt a12.count ≠ 0 := by
+  have hsem : 0 < a12.stdDev.val / Real.sqrt a12.count :=
+    div_pos a12_stdDev_pos (Real.sqrt_pos.mpr (by simp [a12]))
+  rw [Arith.ciMean_eq _ a12 _ (by simp [a12]) rfl rfl conf95_probOk]
+  refine ⟨_, _, twoSided_ok_Rex _ _ _ ?_, hsem.ne'⟩
+  simp only [RR.down_eq, RR.up_eq, RR.sub_val, RR.add_val, RR.mul_val, RR.div_val,
+    RR.sqrt_val, RR.ofNat_val, id, Arith.critOf, constCrit]
+  have : 0 ≤ 2 * (a12.stdDev.val / Real.sqrt a12.count) := mul_nonneg (by norm_num) hsem.le
+  linarith
+
+theorem s2n_a12 : (Unpaired.s2n a12).val = 1 / 4 := by
+  simp only [Unpaired.s2n, RR.div_val, RR.mul_val, id, a12_stdDev_sq, RR.ofNat_val]
+  simp [a12]; norm_num
+
+/-- `Unpaired::ci_mean` on the samples `1, 2` and `1, 2` with critical value 2 is an `Ok` two-sided
+    interval, with a non-zero standard error -/
+theorem unpaired_ok : ∃ lo hi : Rex,
+    Unpaired.ciMean (constCrit 2 : Crit Rex) ⟨a12, a12⟩ (.twoSided (inj 0.95)) =
+      .ok (.twoSided lo hi) ∧
+    (Unpaired.semF (⟨a12, a12⟩ : Unpaired Rex)).val ≠ 0 := by
+  have hsem : 0 < (Unpaired.semF (⟨a12, a12⟩ : Unpaired Rex)).val := by
+    simp only [Unpaired.semF, RR.sqrt_val, RR.add_val, id, s2n_a12]
+    exact Real.sqrt_pos.mpr (by norm_num)
+  have hd : 0 < (Unpaired.dofF (⟨a12, a12⟩ : Unpaired Rex)).val :=
+    Unpaired.dofF_pos_Rex _ (by simp [a12]) (by simp [a12]) (Or.inl (by rw [s2n_a12]; norm_num))
+  rw [Unpaired.ciMean_eq _ _ _ (by simp [a12]) (by simp [a12]) rfl rfl conf95_probOk
+    (fun _ => by simpa using hd)]
+  refine ⟨_, _, twoSided_ok_Rex _ _ _ ?_, hsem.ne'⟩
+  simp only [RR.down_eq, RR.up_eq, RR.sub_val, RR.add_val, RR.mul_val, id, Unpaired.critOf, constCrit]
+  have : 0 ≤ 2 * (Unpaired.semF (⟨a12, a12⟩ : Unpaired Rex)).val := mul_nonneg (by norm_num) hsem.le
+  linarith
+
+end Examples
 
 end StatsCI
